@@ -41,19 +41,20 @@ func zzC08_order() {
 	// the connection's handler: the function itself, or a ServeMux dispatching to it by short name
 	// (abstract dictionary: "XX"), by index, or as catch-all
 	var top Handler = h
+	var mux *ServeMux
 	switch vChoice("dispatch", 4) {
 	case 1:
-		mux := NewServeMux()
+		mux = NewServeMux()
 		mux.Handle("XXR", h)
 		mux.Handle("XXA", h)
 		top = mux
 	case 2:
-		mux := NewServeMux()
+		mux = NewServeMux()
 		mux.HandleIdx(CommandIndex{AppID: 0, Code: 257, Request: true}, h)
 		mux.HandleIdx(CommandIndex{AppID: 0, Code: 257, Request: false}, h)
 		top = mux
 	case 3:
-		mux := NewServeMux()
+		mux = NewServeMux()
 		mux.Handle("ALL", h)
 		top = mux
 	}
@@ -69,7 +70,9 @@ func zzC08_order() {
 	// fragmenting behaviour of ReadMessage itself is C05's subject)
 	perConn := vParam("PERCONN", 0) == 1
 	kind0, arrival0 := vChoice("msgkind", 3), vChoice("arrival", 3)
+	feeds := make([]func(), nconn)
 	for i := 0; i < nconn; i++ {
+		i := i
 		var all []byte
 		// requests, answers, or alternating: the rule holds for every kind of message
 		// (without PERCONN the connections still differ in message kind: kind0, kind0+1, ...)
@@ -84,18 +87,38 @@ func zzC08_order() {
 			}
 			all = append(all, zzPlainMessage(257, flags, 0, uint32(100*(i+1)+k))...)
 		}
-		switch arrival {
-		case 0:
-			trans[i].in <- all
-		case 1:
-			for k := 0; k < nmsg; k++ {
-				trans[i].in <- all[20*k : 20*k+20]
+		feeds[i] = func() {
+			switch arrival {
+			case 0:
+				trans[i].in <- all
+			case 1:
+				for k := 0; k < nmsg; k++ {
+					trans[i].in <- all[20*k : 20*k+20]
+				}
+			case 2:
+				for j := 0; j < 3; j++ {
+					trans[i].in <- all[j : j+1]
+				}
+				trans[i].in <- all[3:]
 			}
-		case 2:
-			for j := 0; j < 3; j++ {
-				trans[i].in <- all[j : j+1]
-			}
-			trans[i].in <- all[3:]
+		}
+	}
+	// all connections receive at once, or (staggered) the first connection's handler is already blocked
+	// and the application has meanwhile fetched the mux's error-report channel (as an error-consuming
+	// loop does on every iteration) when the other connections' messages arrive
+	if nconn > 1 && zzFlag("staggered") {
+		feeds[0]()
+		vQuiesce()
+		if mux != nil {
+			go func() { _ = mux.ErrorReports() }()
+			vQuiesce()
+		}
+		for i := 1; i < nconn; i++ {
+			feeds[i]()
+		}
+	} else {
+		for i := 0; i < nconn; i++ {
+			feeds[i]()
 		}
 	}
 	vQuiesce()
